@@ -220,11 +220,12 @@ def extOkB : Op → Bool
 def rwAmount : Rw → Int | .pay ρ => ρ | _ => 0
 
 /-- the per-call law `withdraw_exact` on the real balances before (`p`) and after (`r`) a successful call -/
-def monWithdrawExact (p r : State) : Op → Bool
+def monWithdrawExact (p r : State) (obs : Option Int) : Op → Bool
   | .withdraw u _ asset _ amt _ => bal r (.user u) asset == bal p (.user u) asset + amt
   | .close u _ asset id rw =>
+    -- full net balance = stored balance + the reward the REAL call credited (observed), not the model's
     match Store.get p.lockers id with
-    | some l => bal r (.user u) asset == bal p (.user u) asset + (l.net + rwAmount rw)
+    | some l => bal r (.user u) asset == bal p (.user u) asset + (l.net + obs.getD (rwAmount rw))
     | none => false
   | _ => true
 
@@ -359,7 +360,7 @@ def applyOp (st : St) (seq : String) (ctx : Ctx) (opT : OpT) (pis : List (Option
       | true, some x, some (a, b, _) => if x ≤ fee p (a, b) then [] else [s!"MON\t{seq}\treward_le_netfees"]
       | _, _, _ => []
     let mons :=
-      (if ok && !monWithdrawExact p r op then [s!"MON\t{seq}\twithdraw_exact"] else []) ++
+      (if ok && !monWithdrawExact p r (obs.bind (·.toInt?)) op then [s!"MON\t{seq}\twithdraw_exact"] else []) ++
       (if ok && !monNetFeesDelta p r op then [s!"MON\t{seq}\tnetfees_delta"] else []) ++
       (stateMonitors p r).map fun n => s!"MON\t{seq}\t{n}"
     -- accounts outside the projection (auction escrows) keep the balance the model computed
